@@ -64,6 +64,10 @@ func VerifC36_Hist() {
 			case 0:
 				if j == 0 || tasks[j-1].state != 0 {
 					enabled = append(enabled, c36Ev{0, j})
+					if len(tasks[j].tags)+len(tasks[j].milestones) == 0 {
+						// a task may first be mentioned by a tag or a milestone (once, to bound the search)
+						enabled = append(enabled, c36Ev{2, j}, c36Ev{3, j})
+					}
 				}
 			case 1:
 				enabled = append(enabled, c36Ev{1, j}, c36Ev{2, j}, c36Ev{3, j})
@@ -112,12 +116,12 @@ func VerifC36_Hist() {
 				verifrt.Assert(len(be.rows) == rows0, "untraced-task-not-recorded")
 				verifrt.Cover("not-recorded")
 			}
-		case 2: // AddTaskTag on a running task
+		case 2: // AddTaskTag on a running task (or one not started yet)
 			nextID++
 			g := TaskTag{ID: nextID, TaskID: tid, What: "tag", Time: now}
 			tr.AddTaskTag(g)
 			tk.tags = append(tk.tags, g)
-		case 3: // AddMilestone on a running task: at most one per instant, first wins
+		case 3: // AddMilestone on a running task (or one not started yet): at most one per instant, first wins
 			nextID++
 			m := Milestone{ID: nextID, TaskID: tid, Time: now, Kind: MilestoneKindQueue, What: "ms"}
 			tr.AddMilestone(m)
